@@ -61,11 +61,15 @@ fn run_blocking(c: &UdpCase, mode: &Mode) -> Observed {
                 o.results.push(crate::transport::render(&r));
             }
         }
-        // drain keep-alive replies
-        peer.set_nonblocking(true).unwrap();
+        // keep-alive replies: exactly one datagram per delivered keep-alive
         let mut scratch = [0u8; 2048];
-        while peer.recv(&mut scratch).is_ok() {}
-        peer.set_nonblocking(false).unwrap();
+        let keepalives = o.results.iter().filter(|r| r.as_str() == "Ok(Tiny(Tiny { reqi: RequestId(0), subt: None }))").count();
+        for _ in 0..keepalives {
+            match peer.recv(&mut scratch) {
+                Ok(n) if scratch[..n] == [crate::props::session::size_byte(mode, 4), 3, 0, 0] => {},
+                other => return Err(format!("keep-alive reply missing or malformed: {other:?}")),
+            }
+        }
         for f in &c.writes {
             let Ok(p) = decode_one(f, mode) else { continue };
             let w = guard(|| framed.write(p)).map_err(|p| format!("panic: {p}"))?;
@@ -115,7 +119,15 @@ fn run_tokio(c: &UdpCase, mode: &Mode) -> Observed {
                     }
                 }
                 let mut scratch = [0u8; 2048];
-                while peer.try_recv(&mut scratch).is_ok() {}
+                // keep-alive replies: exactly one datagram per delivered keep-alive (tokio's try_recv depends on cached
+                // readiness, so the replies are awaited by count rather than drained)
+                let keepalives = o.results.iter().filter(|r| r.as_str() == "Ok(Tiny(Tiny { reqi: RequestId(0), subt: None }))").count();
+                for _ in 0..keepalives {
+                    match tokio::time::timeout(READ_TIMEOUT, peer.recv(&mut scratch)).await {
+                        Ok(Ok(n)) if scratch[..n] == [crate::props::session::size_byte(&mode, 4), 3, 0, 0] => {},
+                        other => return Err(format!("keep-alive reply missing or malformed: {other:?}")),
+                    }
+                }
                 for f in &c.writes {
                     let Ok(p) = decode_one(f, &mode) else { continue };
                     if let Err(e) = framed.write(p).await {
